@@ -332,6 +332,6 @@ pub static DEF: CheckDef = CheckDef {
     id: "C05", level: "exploration", gen, exec,
     nontrivial: |o| o.counters.get("requests").copied().unwrap_or(0) >= 3 && o.counters.get("segments").copied().unwrap_or(0) >= 1,
     rule: "one run = 1-3 connections each pipelining 1-200 requests from a catalogue of valid commands of every family, refused commands (unknown, wrong arity, wrong type, bad argument, missing key, CR/LF in command names and arguments, binary), unique ECHO sentinels, optionally ending in a protocol-violating frame; the request byte streams are delivered under one of six segmentation styles (whole, random chunks, one byte at a time, frame-aligned, around the 8192-byte read boundary, tiny chunks), interleaved between connections by the schedule stream, optionally over small socket buffers; oracle: the bytes received by each client, decoded by the independent RESP reader, are exactly one well-formed reply per request, in order, of the expected kind (error / non-error / exact sentinel), nothing surplus, an error after a protocol violation; non-trivial = at least 3 requests; distinct = distinct event-log hash",
-    quick_budget_s: 40.0, thorough_budget_s: 900.0, quick_max_runs: 1_000_000, thorough_max_runs: 100_000_000, exhaustive: false,
+    quick_budget_s: 40.0, thorough_budget_s: 900.0, quick_max_runs: 1_000_000, thorough_max_runs: 100_000_000, exhaustive: false, exhaustive_after: |_| 0,
     real: REAL_WHOLE_SERVER, stub: STUB_WHOLE_SERVER, assumptions: ASSUME_COMMON,
 };
